@@ -60,6 +60,24 @@ CLAIMS.update({
         note=TRUST),
 })
 
+CLAIMS.update({
+    'C05': dict(
+        text=('Every transaction transition function (request start/line/headers/complete(_partial), response start/line/complete_ex, finalize, destroy, is_complete) is enforced against a '
+              'contract over an event log kept by the replaced hook runner: hooks fire in protocol order within each transition, each at most once per call, a refusal is returned at once; '
+              'progress only grows; REQUEST_/RESPONSE_COMPLETE are guarded by entry progress (at most once over any history); TRANSACTION_COMPLETE only with both sides complete; on success the '
+              'direction is detached. Known finding F-C05-TXCOMPLETE-TWICE (the property file\'s F4) is carved out and re-confirmed by a probe run. Whole-trace order ACROSS transition functions '
+              'and the 100-continue restart live in state functions not under contract here.'),
+        design='4/C05', technique='CBMC code contracts (dfcc) with an event-logging stub for htp_hook_run_all (sequence numbers, per-hook counters)',
+        note=TRUST + 'C05: htp_tx_state_response_headers not under contract (does not close); put_file == NULL assumed in the request-complete units; user callbacks return OK/DECLINED/STOP/ERROR and do not re-enter the parser.'),
+    'C12': dict(
+        text=('Inductive contracts (fixed capacity WCAP, whole decoder configuration symbolic) on htp_normalize_uri_path_inplace, htp_decode_path_inplace, htp_urldecode_inplace_ex, '
+              'htp_utf8_decode_path_inplace, htp_utf8_validate_path, x2c and the UTF-8 DFA step: memory safety, in-place discipline (never reads a byte it overwrote), len\' <= len, flags only grow, '
+              'termination; full-domain lemma for %u decoding over the real best-fit map. Equality with an independent reference pipeline, exact flag sets ("raised exactly when"), idempotence and '
+              'dot-segment freedom are decided by BOUNDED units (all paths up to N bytes over all byte values x fully symbolic configuration), labelled bounded. Three known findings carved out and re-confirmed by probes.'),
+        design='4/C12', technique='CBMC code contracts (dfcc) with loop invariants on the in-place decoders; bounded reference equality with native replay',
+        note=TRUST + 'C12: best-fit map scans assumed via callee contracts backed by the real-map lemma; htp_normalize_parsed_uri, htp_normalize_hostname_inplace not under contract.'),
+})
+
 NOT_YET = 'not yet built in this session (planned in DESIGN.md section 4); no check is registered, so nothing is claimed'
 NA = {
     'C08': 'amortised cost over a whole stream is not program state expressible at a function boundary; per-loop variants are proved and reported under C01 (DESIGN.md section 5)',
